@@ -138,6 +138,20 @@ def as_sym(v):
     return v
 
 
+def _elementwise_value(v):
+    """the written value is itself a function of the entry index (a selection, a repetition, ...): not one value for the block"""
+    v = as_sym(v)
+    if isinstance(v, Sym):
+        if v.op in ('cond', 'where', 'select', 'repeat', 'tile', 'concatenate', 'arange'):
+            return True
+        return any(_elementwise_value(a) for a in v.args if isinstance(a, (Sym, Poly, tuple)))
+    if isinstance(v, Poly):
+        return any(a[0] == 'S' and _elementwise_value(a[1]) for a in v.atoms())
+    if isinstance(v, tuple):
+        return any(_elementwise_value(a) for a in v if isinstance(a, (Sym, Poly, tuple)))
+    return False
+
+
 def nonzero_value(v):
     """True if v is (a tensor of) provably non-zero polynomials"""
     if isinstance(v, tuple) and v and v[0] == 'AT':
@@ -179,6 +193,8 @@ def active_prefix(term, p_old, c_old, what):
         if idx[2] is None:
             raise Inconclusive(f"{what}: mask assignment up to the end of the store")
         hi = lift(idx[2])
+        if _elementwise_value(v):
+            raise Inconclusive(f"{what}: entries [{lo}, {hi}) receive values that depend on the entry: {str(v)[:120]}")
         if not nonzero_value(v):
             raise Inconclusive(f"{what}: entries [{lo}, {hi}) are reset to {v}")
         if _nonneg(c - lo):                       # touches or overlaps the active prefix
@@ -280,6 +296,8 @@ def active_set_at(term, p_old, c_old, env, size=400):
         act = active_set_at(base, p_old, c_old, env, size)
         if not (isinstance(idx, tuple) and idx and idx[0] == 'slice' and idx[3] is None):
             raise KeyError(idx)
+        if _elementwise_value(v):
+            raise KeyError('elementwise value')
         lo = 0 if idx[1] is None else _eval_int(idx[1], env)
         hi = size if idx[2] is None else _eval_int(idx[2], env)
         rng = set(range(max(lo, 0), min(hi, size)))
@@ -287,6 +305,8 @@ def active_set_at(term, p_old, c_old, env, size=400):
     if is_sym(t, 'dynamic_update_slice', 3):
         base, val, off = t.args
         act = active_set_at(base, p_old, c_old, env, size)
+        if _elementwise_value(val):
+            raise KeyError('elementwise value')
         lo, L = _eval_int(off[0], env), _eval_int(_axis_len(val[1][0]), env)
         lo = max(0, min(lo, size - L))           # dynamic_update_slice clamps the start index
         rng = set(range(lo, lo + L))
@@ -349,9 +369,18 @@ def check_mask_activation(p_new, p_old, start, sel, J, what):
         # no symbolic order between the quantities involved: the inferred term is evaluated for a few assignments of the count
         # symbols; an assignment for which the active entries are not the expected prefix is a counterexample
         names = _count_symbols(as_sym(p_new), c_old, want)
-        pools = ([2, 3, 5, 7, 4, 6, 9, 8], [7, 5, 3, 2, 9, 4, 6, 8], [3, 2, 7, 5, 8, 9, 4, 6])
-        for pool in pools:
-            env = {n_: pool[i_ % len(pool)] + (10 if 'start' in n_ else 0) for i_, n_ in enumerate(names)}
+        import itertools
+        starts = [n_ for n_ in names if 'start' in n_]
+        others = [n_ for n_ in names if 'start' not in n_ and n_ != 'J']
+        envs = []
+        for jv in (0, 2, 1):
+            for perm in itertools.permutations([10, 40, 90][:max(len(starts), 1)]):
+                for pool in ([3, 2, 5, 7, 4], [2, 3, 4, 5, 7]):
+                    env = {'J': jv}
+                    env.update({n_: v_ for n_, v_ in zip(starts, perm)})
+                    env.update({n_: pool[i_ % len(pool)] for i_, n_ in enumerate(others)})
+                    envs.append(env)
+        for env in envs:
             try:
                 act = active_set_at(p_new, p_old, c_old, env)
                 exp_n = _eval_int(want, env)
